@@ -445,6 +445,29 @@ pub fn gen_c01(seed: u64, thorough: bool) -> Vec<CaseSpec> {
             push(sp, &mut cases, if run { vec![Plan::Full] } else { vec![] });
         }
     }
+    // (2e) Reed-Solomon GF(2^8) limits (/repo d65a846): a block of a_large + parity = 255 symbols is accepted, 256
+    // refused (FEC 5 and 129); FEC 5 refuses B + parity > 255 whatever the object (8-bit fields of its FEC OTI)
+    for (sch, b, p, sz, run) in [
+        (Scheme::RsUs, 255u32, 1u32, 254u64, true),
+        (Scheme::RsUs, 255, 1, 255, false),
+        (Scheme::RsUs, 300, 5, 250, true),
+        (Scheme::RsUs, 300, 5, 251, false),
+        (Scheme::Rs, 250, 5, 100, true),
+        (Scheme::Rs, 251, 5, 100, false),
+        (Scheme::Rs, 254, 1, 254, true),
+        (Scheme::Rs, 255, 1, 10, false),
+        (Scheme::Rs, 200, 55, 200, true),
+        (Scheme::Rs, 200, 56, 3, false),
+    ] {
+        let mut sp = SessP::default();
+        sp.oti = OtiP { sch: Scheme::Rs, e: 1024, b: 8, p: 1, ifti: true };
+        sp.n = if run { 0 } else { 8 };
+        let mut ob = ObjP::default();
+        ob.sz = sz;
+        ob.oti = Some(OtiP { sch, e: 1, b, p, ifti: sz % 2 == 0 });
+        sp.objs.push(ob);
+        push(sp, &mut cases, if run { vec![Plan::Full] } else { vec![] });
+    }
     // (2d) degenerate configuration values the sender accepts: interleave_blocks = 0 (treated as 1 since
     // /repo 0805b7e) and max_transfer_count = 0 (one transfer, no close-object flag)
     for sch in Scheme::ALL {
